@@ -66,6 +66,11 @@ def rand_table(r, big=False):
             rows.append(list(rows[-1]))  # repeated row
     if target_only and not any(row[2] == states[-1] for row in rows):
         rows.append([sources[0], r.choice(events), states[-1], r.choice(actions), none_sp()])
+    if r.random() < 0.15:
+        # names whose concatenations coincide: (OnGo, EventNowX) / (OnGoEvent, NowX), and a guard named like a static tag
+        w = camel(r, 1)
+        rows.append([r.choice(sources), "EventNow" + w, r.choice(states), "OnGo", none_sp()])
+        rows.append([r.choice(sources), "Now" + w, none_sp(), "OnGoEvent", r.choice(["None", "Guard" + w])])
     return rows
 
 
